@@ -49,8 +49,11 @@ const SENT: f64 = -7.25e77;
 pub fn run_all(n: usize, class: u8, pos: usize, r: &mut Sm) -> Vec<Rec> {
     let mut m: M = CpuMath::new(Target::iso(n, 0.0, 1.0));
     let mut recs = vec![];
-    let a = match class { 0 => r.range(-2.0, 2.0), 1 => r.log_uniform(1e-50, 1e50), _ => *r.pick(&[0.0, 1.0, -1.5, 1e-300, f64::INFINITY, f64::NAN, 0.37]) };
-    let v: Vec<Vec<f64>> = (0..5).map(|_| gen_vec(r, n, class, pos)).collect();
+    let a = match class { 0 | 4 => r.range(-2.0, 2.0), 1 => r.log_uniform(1e-50, 1e50), _ => *r.pick(&[0.0, 1.0, -1.5, 1e-300, f64::INFINITY, f64::NAN, 0.37]) };
+    let mut v: Vec<Vec<f64>> = (0..5).map(|_| gen_vec(r, n, class.min(3), pos)).collect();
+    // class 4: the second vector nearly cancels the first (y = -x (1 + d), |d| <= 1e-6; large magnitudes): sums of (x + y) terms are tiny
+    // compared with the operands -- the well-adapted case "transformed gradient = -transformed position" of sq_norm_sum / scalar_prods
+    if class == 4 { for i in 0..n { let x = r.log_uniform(1.0, 1e12) * if r.coin() { 1.0 } else { -1.0 }; v[0][i] = x; v[1][i] = -x * (1.0 + r.range(-1e-6, 1e-6)); } }
     let (x0, x1, x2, x3, x4) = (vec_of(&mut m, &v[0]), vec_of(&mut m, &v[1]), vec_of(&mut m, &v[2]), vec_of(&mut m, &v[3]), vec_of(&mut m, &v[4]));
     let sentinel = vec![SENT; n];
 
@@ -88,8 +91,10 @@ pub fn run_all(n: usize, class: u8, pos: usize, r: &mut Sm) -> Vec<Rec> {
     { let s = m.array_sum_ln(&x0);
       recs.push(Rec { name: "sumln", n, scalars: vec![], ins: vec![v[0].clone()], out_scalars: vec![s], outs: vec![] }); }
     if n >= 2 {
-        let mut mom = vec_of(&mut m, &v[1]); m.array_normalize(&mut mom); let mom_in = to_vec(&mut m, &mom);
-        let step = if class == 0 { r.range(0.01, 2.0) } else { a };
+        // (class 4: v[1] is anti-parallel to v[0]; momentum exactly opposite to the gradient with exp(-delta) underflowing is the
+        // 0/0 corner of the ESH formula itself, not a kernel question -- take an independent vector there)
+        let mut mom = vec_of(&mut m, if class == 4 { &v[2] } else { &v[1] }); m.array_normalize(&mut mom); let mom_in = to_vec(&mut m, &mom);
+        let step = if class == 0 || class == 4 { r.range(0.01, 2.0) } else { a };
         let dke = m.esh_momentum_update(&x0, &mut mom, step);
         recs.push(Rec { name: "esh", n, scalars: vec![step], ins: vec![v[0].clone(), mom_in], out_scalars: vec![dke], outs: vec![to_vec(&mut m, &mom)] });
     }
@@ -205,7 +210,7 @@ pub fn main(tier: &str, seed: u64, outdir: &str) {
     let mut distinct = std::collections::HashSet::new();
     rep.notes.push(format!("pulp dispatch on this machine: avx2={} avx512f={} fma={}", is_x86_feature_detected!("avx2"), is_x86_feature_detected!("avx512f"), is_x86_feature_detected!("fma")));
     for n in 0..=130usize {
-        for class in 0..4u8 {
+        for class in 0..5u8 {
             // special value planted in each region of the split: first, middle, just before the SIMD tail, last
             let positions: Vec<usize> = if class == 2 && n > 0 { vec![0, n / 2, (n / 16) * 16 % n.max(1), (n / 4) * 4 % n.max(1), n - 1] } else { vec![0] };
             for (pi, pos) in positions.iter().enumerate() {
